@@ -36,6 +36,8 @@ type ModifyStream struct {
 	CloseN int // CloseSend calls
 	// CloseEOF makes CloseSend end the receive side too (as a server does when the client half-closes).
 	CloseEOF bool
+	// EOFBreaksSend makes Send fail with io.EOF once the receive side was ended (as gRPC does).
+	EOFBreaksSend bool
 	// BreakOnSendErr makes a failed Send surface on the receive side as well (as gRPC does).
 	BreakOnSendErr bool
 }
@@ -86,6 +88,12 @@ func (m *ModifyStream) Send(r *spb.ModifyRequest) error {
 	}
 	m.mu.Lock()
 	m.nCalls++
+	if m.closed && m.EOFBreaksSend {
+		// the server has ended the RPC: gRPC's SendMsg returns io.EOF
+		m.failed = true
+		m.mu.Unlock()
+		return io.EOF
+	}
 	if m.SendErr != nil && m.SendOK == 0 {
 		err := m.SendErr
 		first := !m.failed
